@@ -26,6 +26,7 @@ FIRST = {
     "c14_c2_conflicts_map_min_by_key": "caught (arrived after the strengthening)",
     "r2_c03_a2_empty_first_treated_as_nullable": "MISSED (unproductive nonterminals were all right-recursive: FIRST never empty)",
     "r2_c03_b1_lookahead_inherited_on_empty_first": "MISSED (same)",
+    "r3_c14_b1_first_fit_merge_hash_discovery": "MISSED (no LR(1)-but-not-LALR(1) grammar with three core-equal states of non-transitive compatibility)",
 }
 
 
